@@ -81,7 +81,7 @@ theorem residual_operands_identical (hl : computeLabels p = some l) (hws : wellS
     (aliveMasks p l α).getD a [] = (aliveMasks p l α).getD b [] ∧
     (aliveMasks p l α).getD n [] = (aliveMasks p l α).getD a [] := by
   have h := coherent_of_bookkeeping (V := ℕ) ⟨fun _ _ _ v => v, fun _ _ => 0, fun _ _ v => v,
-    fun _ _ v => v, fun _ v => v, fun _ u v => u + v, fun _ _ v => v⟩ (fun n => List.replicate
+    fun _ _ v => v, fun _ _ v => v, fun _ u v => u + v, fun _ _ v => v⟩ (fun n => List.replicate
       (match p.getD n (.input 0) with | .input c => c | _ => 0) 0) p l α hl hws hsup
     (by
       intro k hk
@@ -98,7 +98,7 @@ theorem depthwise_follows_input (hl : computeLabels p = some l) (hws : wellShape
     (hop : p[n] = .dw s a) :
     (aliveMasks p l α).getD n [] = (aliveMasks p l α).getD s [] := by
   have h := coherent_of_bookkeeping (V := ℕ) ⟨fun _ _ _ v => v, fun _ _ => 0, fun _ _ v => v,
-    fun _ _ v => v, fun _ v => v, fun _ u v => u + v, fun _ _ v => v⟩ (fun n => List.replicate
+    fun _ _ v => v, fun _ _ v => v, fun _ u v => u + v, fun _ _ v => v⟩ (fun n => List.replicate
       (match p.getD n (.input 0) with | .input c => c | _ => 0) 0) p l α hl hws hsup
     (by
       intro k hk
@@ -136,7 +136,7 @@ exactly as many channels as the layer was exported with input channels — at th
 abstract network semantics, for every supported program, input and layer semantics -/
 theorem export_shape_consistent {V : Type} [AddCommMonoid V] (σ : Sem V) (inp : ℕ → List V)
     (hl : computeLabels p = some l) (hws : wellShaped p = true) (hsup : supported p = true)
-    (hsem : ∀ n (hn : n < p.length), SemOK σ inp (p[n], n)) (s : ℕ) (hs : s < p.length) :
+    (hsem : ∀ n (hn : n < p.length), SemOK σ (aliveMasks p l α) inp (p[n], n)) (s : ℕ) (hs : s < p.length) :
     (gv (runBoth σ (aliveMasks p l α) inp p.zipIdx).2 s).length
       = (compress (gm (aliveMasks p l α) s) (idxFrom 0 (gm (aliveMasks p l α) s).length)).length := by
   have hco := coherent_of_bookkeeping σ inp p l α hl hws hsup hsem
